@@ -1,11 +1,45 @@
 /-
   C20 — RGSW external products and blind rotations compute the encrypted look-up.
 
-  The theorems are about the definitions of `Lattigo/Model/RGSW.lean` and
-  `Lattigo/Model/BlindRot.lean` (the ones the driver executes), generic ones for EVERY commutative
-  ring.  Where the code violates the property the model follows the code and the negation is proved
-  with a witness (`…_counterexample`); the matching probes of `harness/c20*.go` exhibit the same
-  behaviour on the real code.
+  The theorems are about the definitions of `Lattigo/Model/RGSW.lean` and `Lattigo/Model/BlindRot.lean` (the ones the
+  driver executes; the model follows /repo HEAD, i.e. with the fixes `/verif/fixes/C20-1 … C20-10`).  Companion files:
+  `C20Ring` (transport to `RPoly` values over `WFPoly qs n`), `C20Noise` (norm bounds), `C20Stack` (`extprod_phase_full`:
+  recombination, rounded division and `P⁻¹` discharged from C02).  STATUS, clause by clause of the property text:
+
+  * "external product … decrypts to m·g with noise below the bound implied by the decomposition, every level, auxiliary
+    modulus count and digit decomposition":
+      PROVED for all inputs with an auxiliary modulus — `extprod_noise_closed` (this file; phase identity in `R_Q` with an
+      integer noise polynomial and the closed bound `2P‖ν‖ ≤ 2nB(ΣD+ΣD) + P(1+h)`; no hypothesis beyond well-formedness,
+      pairwise coprime moduli, `P` odd, errors/secret given as signed lists).  Generic identities for every commutative
+      ring: `rgsw_rows_phase`, `extprod_phase`, `extprod_phase_div`, `extprod_phase_noP`.  WITHOUT auxiliary modulus the
+      identity is `C20Ring.extprod_phase_rpoly` under the recombination hypothesis (discharged by
+      `StackKS.rgsw_recombine` only inside `extprod_phase_full`, i.e. for `ps ≠ []`) and the bound
+      `C20Noise.extprod_noise_bound_noP`; the composition for `ps = []` is not assembled (open).
+      `rgsw_digit_partition`: the greedy partition of the Q primes into RNS digits.
+  * "in the single-modulus 32-bit fast path as well as the general path": `path_eq`, `path_eq_guarded` (word level, one
+    NTT slot: the guarded accumulator + `IMForm` is the general path's value), `path_eq_counterexample` (what the guard
+    excludes); `extprod_lazy_no_wrap` (the lazy 64-bit accumulators of the multi-`P` path never wrap, per limb family).
+    That the NTT-domain slot values assemble to the coefficient-domain `extProdR` is C01's NTT correctness: TIED
+    (`ep32raw`, `eplazy`, `extprod`), not proved here.
+  * "RGSW ciphertexts add and multiply by X^a−1 as their plaintexts do": `rgsw_add`, `rgsw_mulXminus1`,
+    `rgsw_mulXminus1_add`, `rgsw_addPlain` (row-level equalities, every commutative ring; `C20Ring.*_rpoly` on values).
+  * "blind rotation … returns an encryption of f(x) up to the discretisation step, whatever the Hamming weight":
+      `blindrot_exponent`, `eff_spec`, `blindrot_exponent_mask`, `blindrot_exponent_model` (the schedule AS CODED ends at
+      Galois index 1 and exponent `b + ⟨a,s⟩ mod 2N`, for every mask the model's mod-switch produces, all `N = 2^(k+1) ≥ 4`);
+      `blindrot_invariant` (phases, abstract ring), `blindrot_end_to_end` and `blindrot_evalSlot_phase` (on `RPoly` values,
+      for the model's own `evalSlot`/`coreR`: final phase `F·X^{b+⟨a,s⟩} + noiseRunG`);
+      `blindrot_lookup`, `blindrot_lookup_all`, `blindrot_lookup_endpoint` (value read at EVERY exponent, both halves, sign).
+      The size of `noiseRunG` is `C20Noise.blindrot_noise_bound` UNDER per-operation bounds `B_ks`, `B_ep` (named
+      hypotheses): `extprod_noise_closed` provides `B_ep`; the key-switch error of `automorphismR` is NOT bounded here
+      (C04's `keyswitch_noise_closed` is about `KS.gadgetProductR`; `BlindRot.gadgetProductR` is tied to the code by `br_eval`
+      / `br_core` but not proved equal to it) — open.  The drift `|b̃ + ⟨ã,s⟩ − 2N·phase/Q| ≤ 1/2 + (3/2)‖s‖₁ + …` of the
+      modulus switch (the "discretisation step") is PROBED (`blindrot_lookup`), not proved.
+      `InitTestPolynomial`'s float pipeline (`scaleUp`) is TIED (`testpoly`); the theorems are about integer tables `y`.
+  * "the generated keys contain exactly the Galois and RGSW keys the algorithm requests": `brk_keys_requested_subset`
+    (requested ⊆ generated, all `N`, all masks); "generated ⊆ requested by some input" and "each RGSW key at most once"
+    are PROBED (`brk_keys_exact`, statistics) only.
+  * Not covered by any theorem: public-key RGSW encryption, serialisation, the evaluator's buffer aliasing /
+    input-preservation and history behaviour (probes `*_inputs_unchanged`, `blindrot_history`, `blindrot_evaluate_twice`).
 -/
 import Lattigo.Proofs.RGSW
 import Lattigo.Proofs.RGSW32
@@ -17,6 +51,8 @@ import Lattigo.Proofs.RGSWLazy
 import Lattigo.Props.C20Ring
 import Lattigo.Props.C20Noise
 import Lattigo.Props.C20Stack
+import Lattigo.Proofs.RGSWNoise
+import Lattigo.Proofs.BlindRotE2E
 
 namespace Lattigo.Props.C20
 open Lattigo Lattigo.RGSW
@@ -414,6 +450,137 @@ example :
     8 * p ≤ W := by
   decide +kernel
 
+/-- `blindrot_lookup` at EVERY exponent (`N = 2h`, `r = e mod 2N`): both halves of `InitTestPolynomial`'s table and the
+    negacyclic sign convention: `y r` for `r < N/2`, `−y(r − N)` for `N/2 ≤ r < 3N/2`, `y(r − 2N)` for `r ≥ 3N/2` — for all `N`,
+    all tables `y`, all integers `e`. -/
+theorem blindrot_lookup_all (h : Nat) (hh : 0 < h) (y : Int → Int) (e : Int) :
+    let r := (e % ((2 * (2 * h) : Nat) : Int)).toNat
+    lookup (2 * h) (testPolyInts (2 * h) y) e =
+      if r < h then y r else if r < 3 * h then -(y ((r : Int) - (2 * h : Nat))) else y ((r : Int) - (4 * h : Nat)) :=
+  lookup_all h hh y e
+
+example : lookup 8 (testPolyInts 8 fun k => 10 * k + 1) 5 = -(10 * (5 - 8) + 1) ∧
+    lookup 8 (testPolyInts 8 fun k => 10 * k + 1) (-7) = -(10 * 1 + 1) ∧
+    lookup 8 (testPolyInts 8 fun k => 10 * k + 1) 13 = 10 * (-3) + 1 := by decide
+
+/-- **blindrot_end_to_end** (`Z_Q[X]/(X^N+1)` on `RPoly`, `N = 2^(k+1) ≥ 4`).  For every LWE sample, every slot list and
+every mask `a` the model's `Evaluate` derives, `BlindRotateCore` maps an accumulator of phase `φ_{2N−5}(F)·X^{(2N−5)b} + n₀`
+(`evalSlot`'s `(φ_{2N−5}(F·X^b), 0)`) to one of phase `F·X^{b + ⟨a,s⟩} + noise`, `noise = noiseRunG …` the accumulated
+key-switching / external-product errors (`C20Noise.blindrot_noise_bound`: `≤ ‖n₀‖ + #aut·B_ks + #mul·B_ep` under
+per-operation bounds `B_ks`, `B_ep`; `extprod_noise_closed` is such a `B_ep`).  `ph`, `autOp`, `mulOp` are arbitrary:
+the statement is the algebra of the schedule, mask preparation and discrete-log table, composed. -/
+theorem blindrot_end_to_end (k : ℕ) (hk : 1 ≤ k) {qs : List ℕ} [hgd : RPolyRing.Good qs (2 ^ (k + 1))] {γ : Type}
+    (ph : γ → RPoly) (hph : ∀ x, Transport.WFq qs (2 ^ (k + 1)) (ph x)) (autOp mulOp : Nat → γ → γ) (sI : Nat → ℤ)
+    (F : RPoly) (hF : Transport.WFq qs (2 ^ (k + 1)) F) (Q : ℕ) (c1 idxs : List ℕ) (b : ℕ) (x : γ)
+    (n0 : RPoly) (hn0 : Transport.WFq qs (2 ^ (k + 1)) n0) :
+    let N := 2 ^ (k + 1)
+    let s : Nat → ZMod (2 * N) := fun j => ((sI j : ℤ) : ZMod (2 * N))
+    let t0 : ZMod (2 * N) := ((2 * N - galoisGen : ℕ) : ZMod (2 * N))
+    ph x = C20Ring.phiR N t0 F * C20Ring.monoR qs N (t0 * (b : ZMod (2 * N))) + n0 →
+    ∀ ia ∈ slotMasks N (prepMask Q N c1) idxs,
+      ph (runSteps autOp mulOp (coreSchedule N ia.2) x) =
+        F * C20Ring.monoR qs N ((b : ZMod (2 * N)) +
+              ((List.range ia.2.length).map fun j => ((ia.2.getD j 0 : ℕ) : ZMod (2 * N)) * s j).sum)
+          + C20Ring.noiseRunG (C20Ring.monoR qs N) (C20Ring.phiR N) ph autOp mulOp s (coreSchedule N ia.2) x n0 :=
+  Lattigo.RGSW.BlindRot.blindrot_end_to_end k hk ph hph autOp mulOp sI F hF Q c1 idxs b x n0 hn0
+
+/-- non-vacuity (`N = 8`, `Q = 97·193`, the ideal operations `x ↦ x(X^g)`, `x ↦ x·X^{s_j}` on plain polynomials, an LWE
+sample of modulus 257, `b = 3`, two slots): the hypothesis on the initial accumulator holds by construction, the theorem
+gives the phase of the final accumulator for both masks. -/
+example :
+    let sI : Nat → ℤ := fun j => if j % 3 = 0 then 1 else if j % 3 = 1 then -1 else 0
+    let s : Nat → ZMod (2 * 8) := fun j => ((sI j : ℤ) : ZMod (2 * 8))
+    let x0 := C20Ring.phiR 8 ((11 : ℕ) : ZMod 16) C20Ring.F8 * C20Ring.monoR [97, 193] 8 (((11 : ℕ) : ZMod 16) * ((3 : ℕ) : ZMod 16))
+    ∀ ia ∈ slotMasks 8 (prepMask 257 8 [5, 200, 77, 130]) [0, 2],
+      C20Ring.phR (runSteps (fun g x => x.aut g) (fun j x => x.mulMonomial ((s j).val : ℤ)) (coreSchedule 8 ia.2) x0) =
+        C20Ring.F8 * C20Ring.monoR [97, 193] 8 (((3 : ℕ) : ZMod 16) +
+              ((List.range ia.2.length).map fun j => ((ia.2.getD j 0 : ℕ) : ZMod 16) * s j).sum)
+          + C20Ring.noiseRunG (C20Ring.monoR [97, 193] 8) (C20Ring.phiR 8) C20Ring.phR (fun g x => x.aut g)
+              (fun j x => x.mulMonomial ((s j).val : ℤ)) s (coreSchedule 8 ia.2) x0 (RPoly.zero [97, 193] 8) := by
+  intro sI s x0
+  have : RPolyRing.Good [97, 193] (2 ^ (2 + 1)) := C20Ring.good8br
+  exact blindrot_end_to_end 2 (by norm_num) (qs := [97, 193]) (hgd := (C20Ring.good8br : RPolyRing.Good [97, 193] (2 ^ (2 + 1)))) C20Ring.phR C20Ring.phR_wf _ _ sI C20Ring.F8 (by decide) 257
+    [5, 200, 77, 130] [0, 2] 3 x0 _ Transport.WFq.zero (by decide +kernel)
+
+/-- **blindrot_evalSlot_phase**: `blindrot_end_to_end` for the MODEL'S OWN `Evaluate` (`evalSlot`, what the driver's `br_eval`
+handler prints; `coreR`, what `br_core` prints): accumulator `(φ_{2N−5}(F·X^b), 0)`, operations `automorphismR p gks` and
+`extProdR p · brk_j`, phase read under any well-formed `sQ`.  For all key material (valid or not: the errors are in
+`noiseRunG`), all LWE samples, slot lists and masks: `phase(evalSlot …) = F·X^{b + ⟨a,s⟩} + noise`. -/
+theorem blindrot_evalSlot_phase (k : ℕ) (hk : 1 ≤ k) {qs : List ℕ} [hgd : RPolyRing.Good qs (2 ^ (k + 1))] (p : Par)
+    (hpQ : p.qsQ = qs) (hpn : p.n = 2 ^ (k + 1)) (gks : List (Nat × List (RPoly × RPoly))) (brk : List (Ct RPoly))
+    (sQ : RPoly) (hsQ : Transport.WFq qs (2 ^ (k + 1)) sQ) (sI : Nat → ℤ) (F : RPoly)
+    (hF : Transport.WFq qs (2 ^ (k + 1)) F) (Q : ℕ) (c1 idxs : List ℕ) (b : ℕ) :
+    let N := 2 ^ (k + 1)
+    let s : Nat → ZMod (2 * N) := fun j => ((sI j : ℤ) : ZMod (2 * N))
+    let ph : RPoly × RPoly → RPoly := fun ct => wfz qs N (phase ct sQ)
+    let acc0 : RPoly × RPoly := (RPoly.aut (RPoly.mulMonomial F (b : ℤ)) (2 * N - galoisGen), RPoly.zero qs N)
+    ∀ ia ∈ slotMasks N (prepMask Q N c1) idxs,
+      ph (evalSlot p gks brk F ia.2 b) =
+        F * C20Ring.monoR qs N ((b : ZMod (2 * N)) +
+              ((List.range ia.2.length).map fun j => ((ia.2.getD j 0 : ℕ) : ZMod (2 * N)) * s j).sum)
+          + C20Ring.noiseRunG (C20Ring.monoR qs N) (C20Ring.phiR N) ph (automorphismR p gks)
+              (fun j ct => extProdR p ct (brk.getD j default)) s (coreSchedule N ia.2) acc0 (RPoly.zero qs N) :=
+  evalSlot_phase k hk p hpQ hpn gks brk sQ hsQ sI F hF Q c1 idxs b
+
+/-- non-vacuity: `N = 8`, `Q = 97·193`, no auxiliary modulus, empty key material (every operation error lands in the
+noise term), the sample of the previous example -/
+example := blindrot_evalSlot_phase 2 (by norm_num) (qs := [97, 193])
+  (hgd := (C20Ring.good8br : RPolyRing.Good [97, 193] (2 ^ (2 + 1)))) ⟨[97, 193], [], 8, 7⟩ rfl rfl [] []
+  C20Ring.F8 (by decide) (fun j => if j % 2 = 0 then 1 else -1) C20Ring.F8 (by decide) 257 [5, 200, 77, 130] [0, 2] 3
+
+/-! ## The closed noise bound of the external product -/
+
+section closed
+open Lattigo.RPolyRing Lattigo.Transport Lattigo.Props.C20Ring Lattigo.StackKS Lattigo.ZPoly Lattigo.RGSWNoise
+open Lattigo.Scaling (prodN)
+variable {qs ps : List ℕ} {n : ℕ} [hgq : Good qs n] [hg : Good (qs ++ ps) n]
+
+/-- **extprod_noise_closed** ("decrypts to `m·g` with noise below the bound implied by the decomposition", with an
+auxiliary modulus, every level, every digit decomposition of the model).  For `p = ⟨qs, ps, n, w⟩`, pairwise coprime
+moduli, `P` odd, well-formed inputs, the secret `s = ofInts s^Z` (`‖s^Z‖₁ ≤ h`) and row errors `e_k = ofInts e^Z_k`
+(`‖e^Z_k‖∞ ≤ B`): there is an INTEGER polynomial `ν^Z` with
+
+    `phase(extProdR p ct (encryptR p s g smp0 smp1)) = g·phase(ct) + ofInts ν^Z`   in `R_Q`, and
+    `2·P·‖ν^Z‖∞ ≤ 2·n·B·(ΣD + ΣD) + P·(1 + h)`,   `D = digitBoundsR p` (`2^w − 1` | `q_i − 1` | `⌊Q_i/2⌋ + 1` per digit).
+
+No recombination, rounding, inverse, divisibility or IEEE hypothesis is left (`Proofs/RGSWNoise.lean`). -/
+theorem extprod_noise_closed (hqs : qs ≠ []) (hps : ps ≠ []) (hco : (qs ++ ps).Pairwise Nat.Coprime)
+    (hPodd : prodN ps % 2 = 1) (w : ℕ) (sZ : List ℤ) (g : RPoly) (smp0 smp1 : List (RPoly × RPoly))
+    (eZ0 eZ1 : List (List ℤ)) (c0 c1 : RPoly) (B h : ℕ)
+    (hsZ : sZ.length = n) (hgw : WFq (qs ++ ps) n g)
+    (hw0 : WFplist (qs ++ ps) n smp0) (hw1 : WFplist (qs ++ ps) n smp1)
+    (hc0w : WFq qs n c0) (hc1w : WFq qs n c1)
+    (h0 : (pgList ⟨qs, ps, n, w⟩).length = smp0.length) (h1 : (pgList ⟨qs, ps, n, w⟩).length = smp1.length)
+    (he0 : smp0.map Prod.snd = eZ0.map (RPoly.ofInts (qs ++ ps)))
+    (he1 : smp1.map Prod.snd = eZ1.map (RPoly.ofInts (qs ++ ps)))
+    (hel0 : ∀ e ∈ eZ0, e.length = n) (hel1 : ∀ e ∈ eZ1, e.length = n)
+    (heB0 : ∀ e ∈ eZ0, normInf e ≤ B) (heB1 : ∀ e ∈ eZ1, normInf e ≤ B) (hsn : norm1 sZ ≤ h) :
+    let p : Par := ⟨qs, ps, n, w⟩
+    let s := RPoly.ofInts (qs ++ ps) sZ
+    ∃ νZ : List ℤ, νZ.length = n
+      ∧ phase (extProdR p (c0, c1) (encryptR p s g smp0 smp1)) (takeRows qs.length s)
+          = takeRows qs.length g * phase (c0, c1) (takeRows qs.length s) + RPoly.ofInts qs νZ
+      ∧ 2 * (prodN ps * normInf νZ)
+          ≤ 2 * (n * B * ((digitBoundsR p).sum + (digitBoundsR p).sum)) + prodN ps * (1 + h) :=
+  Lattigo.RGSWNoise.extprod_noise_closed hqs hps hco hPodd w sZ g smp0 smp1 eZ0 eZ1 c0 c1 B h hsZ hgw hw0 hw1 hc0w
+    hc1w h0 h1 he0 he1 hel0 hel1 heB0 heB1 hsn
+
+end closed
+
+/-- the instance obtained FROM THE THEOREM (`Q = [97]`, `P = [193]`, `n = 8`, `w = 0`, the driver's gadget vector and
+digits, errors of size `≤ 2`, ternary secret of weight 5): every hypothesis discharged by evaluation; the digit bound is
+`q − 1 = 96` per component, so `2·193·‖ν‖∞ ≤ 2·(8·2·192) + 193·6`, i.e. `‖ν‖∞ ≤ 18`. -/
+example : ∃ νZ : List ℤ, νZ.length = 8
+    ∧ phase (extProdR C20Ring.p8 C20Ring.ct8 (encryptR C20Ring.p8 C20Ring.s8 C20Ring.g8 C20Ring.smp08 C20Ring.smp18))
+          (Transport.takeRows 1 C20Ring.s8)
+        = Transport.takeRows 1 C20Ring.g8 * phase C20Ring.ct8 (Transport.takeRows 1 C20Ring.s8) + RPoly.ofInts [97] νZ
+    ∧ 2 * (193 * ZPoly.normInf νZ) ≤ 2 * (8 * 2 * (96 + 96)) + 193 * (1 + 5) :=
+  extprod_noise_closed (qs := [97]) (ps := [193]) (n := 8) (by decide) (by decide) (by decide) (by decide) 0
+    [1, -1, 0, 1, 0, 0, -1, 1] C20Ring.g8 C20Ring.smp08 C20Ring.smp18 [[1, 0, -1, 0, 2, 0, -2, 1]]
+    [[0, 1, 0, -1, 0, 1, 0, -1]] C20Ring.ct8.1 C20Ring.ct8.2 2 5 (by decide) (by decide +kernel) (by decide +kernel)
+    (by decide +kernel) (by decide +kernel) (by decide +kernel) (by decide) (by decide) (by decide) (by decide)
+    (by decide) (by decide) (by decide) (by decide) (by decide)
+
 end Lattigo.Props.C20
 
 #print axioms Lattigo.Props.C20.rgsw_rows_phase
@@ -437,3 +604,7 @@ end Lattigo.Props.C20
 #print axioms Lattigo.Props.C20.blindrot_exponent_model
 #print axioms Lattigo.Props.C20.rgsw_digit_partition
 #print axioms Lattigo.Props.C20.extprod_lazy_no_wrap
+#print axioms Lattigo.Props.C20.extprod_noise_closed
+#print axioms Lattigo.Props.C20.blindrot_lookup_all
+#print axioms Lattigo.Props.C20.blindrot_end_to_end
+#print axioms Lattigo.Props.C20.blindrot_evalSlot_phase
